@@ -21,6 +21,7 @@ import SmppVerif.Lemmas.SpecTables
 import SmppVerif.Lemmas.SpecEncode
 import SmppVerif.Model.PduDecode
 import SmppVerif.Lemmas.SmRead
+import SmppVerif.Lemmas.TlvRead
 
 namespace SmppVerif.Props.C04
 open SmppVerif SmppVerif.Pdu SmppVerif.Spec.Smpp SmppVerif.Lemmas
@@ -106,6 +107,41 @@ theorem decode_mandatory_fields (hd : List Nat) (h16 : hd.length = 16) (h : Head
   Lemmas.SmRead.smFromPdu_short hd h16 h dflt enc svc ston snpi snum dton dnpi dnum esm pid prio sched valid reg repl dc
     defId sm text schedT validT w henc hdm hts htv hsvc htext hlen
 
+/-- DECODING DIRECTION, optional parameters: the same body followed by ANY list of optional parameters laid out
+    as §5.3 prescribes (two octets tag, two octets length, value) — integer parameters of width 1, 2 or 4, ASCII
+    strings with or without terminating NUL, flags without value, any of the 65,536 tags except message_payload,
+    in any order and number — is decoded to the mandatory fields and to exactly those parameters, in order, each
+    with the value type the (regenerated) tag table gives its tag (`TlvRead.readBack`). -/
+theorem decode_optional_params (hd : List Nat) (h16 : hd.length = 16) (h : Header) (dflt enc : Enc)
+    (svc : List Nat) (ston snpi : Nat) (snum : List Nat) (dton dnpi : Nat) (dnum : List Nat)
+    (esm pid prio : Nat) (sched valid : List Nat) (reg repl dc defId : Nat) (sm text : List Nat)
+    (schedT validT : Time.TimeObj) (ps : List (Nat × List Nat)) (g : Nat × List Nat → Tlv)
+    (hps : ∀ p ∈ ps, Lemmas.TlvRead.ParamOK p (g p))
+    (w : Lemmas.SmRead.FieldsOK svc ston snpi snum dton dnpi dnum sched valid)
+    (henc : (if dc = 0 then Except.ok dflt else encOfDataCoding dc) = .ok enc)
+    (hdm : decodeMessage esm (decodeCodec enc) sm = .ok (text, []))
+    (hts : Time.fromSmpp sched = .ok schedT) (htv : Time.fromSmpp valid = .ok validT)
+    (hsvc : svc.length ≤ 5) (htext : text ≠ [])
+    (hlen : h.pduLength = (hd ++ Lemmas.SmRead.mandatory svc ston snpi snum dton dnpi dnum esm pid prio sched valid reg repl dc defId sm
+      (Lemmas.TlvRead.wire ps)).length) :
+    smFromPdu (hd ++ Lemmas.SmRead.mandatory svc ston snpi snum dton dnpi dnum esm pid prio sched valid reg repl dc defId sm
+        (Lemmas.TlvRead.wire ps)) h dflt =
+      .ok { seq := h.seq, status := 0, shortMessage := text,
+            source := ⟨snum, ston, snpi⟩, dest := ⟨dnum, dton, dnpi⟩, serviceType := svc,
+            esmClass := esm, protocolId := pid, priorityFlag := prio, schedule := schedT, validity := validT,
+            registeredDelivery := reg, replaceIfPresent := repl,
+            encoding := if enc.name = str Gen.Consts.defaultEncoding then none else some enc,
+            smDefaultMsgId := defId, messagePayload := [], optionalParams := ps.map g } :=
+  Lemmas.TlvRead.smFromPdu_short_params hd h16 h dflt enc svc ston snpi snum dton dnpi dnum esm pid prio sched valid reg repl dc
+    defId sm text schedT validT ps g hps w henc hdm hts htv hsvc htext hlen
+
+/-- Non-vacuity (a test): three parameters of the three kinds satisfy `ParamOK`: sar_msg_ref_num (two-octet
+    integer), receipted_message_id (C-octet string) and alert_on_message_delivery (flag). -/
+example : Lemmas.TlvRead.ParamOK (0x020C, [0x12, 0x34]) ⟨0x020C, .int 0x1234⟩ ∧
+    Lemmas.TlvRead.ParamOK (0x001E, [65, 66, 0]) ⟨0x001E, .str [65, 66]⟩ ∧
+    Lemmas.TlvRead.ParamOK (0x130C, []) ⟨0x130C, .bool true⟩ := by
+  refine ⟨⟨by decide, by decide, ?_⟩, ⟨by decide, by decide, ?_⟩, ⟨by decide, by decide, ?_⟩⟩ <;> decide +kernel
+
 /-- DECODING DIRECTION, message_payload: the same body with an empty short_message and the text in a
     message_payload parameter (tag 0x0424, two-octet length). -/
 theorem decode_message_payload (hd : List Nat) (h16 : hd.length = 16) (h : Header) (dflt enc : Enc)
@@ -167,3 +203,4 @@ end SmppVerif.Props.C04
 #print axioms SmppVerif.Props.C04.decode_mandatory_fields
 #print axioms SmppVerif.Props.C04.decode_message_payload
 #print axioms SmppVerif.Props.C04.udh_port_first_decoded
+#print axioms SmppVerif.Props.C04.decode_optional_params
